@@ -301,6 +301,27 @@ def dict_part(R, S, rng, quick):
         if got is not None:
             R.check(len(got) == 2 ** d, 'dict-shared-leaves', f'dictionary with shared subtrees: {len(got)} leaves, want {2 ** d}', {'depth': d})
         R.case(mon.fp('dictdag', d))
+    # ladders that yield no leaf at all: the work must then be bounded by the input (n + e), there is no output to pay for
+    for d in ([8, 16, 24, 40] if quick else [4, 8, 12, 16, 20, 24, 32, 40, 64, 128]):
+        pruned_leaf = rc.make_pruned(rc.RC('1'), 1)
+        for fam, top_bits, w in (('dict-overlong-label-then-ladder', '10' + '1111' + '1' * 15, 8),      # hml_long n=15 although only m=8 key bits remain: m goes negative
+                                 ('dict-overlong-same-label-then-ladder', '11' + '1' + '1111', 8),       # hml_same n=15, m=8
+                                 ('dict-pruned-leaf-ladder', None, 1023)):                              # valid empty labels, every path ends in a pruned branch
+            c = pruned_leaf
+            for i in range(d):
+                c = rc.RC('00', (c, c))
+            if top_bits:
+                c = rc.RC(top_bits, (c, c))
+            cell = bridge.to_lib(c, 'builder')
+            n, e = dag_size(c)
+            W = {'depth': d, 'width': w, 'boc': rc.encode_boc([c]), 'paths': 2 ** d}
+            got = S.run(fam, 'parse_hashmap', n + e, lambda: parse_hashmap(cell.begin_parse(), w), W)
+            S.run(fam, 'load_dict', n + e, lambda: bridge.lib().Builder().store_dict(cell).end_cell().begin_parse().load_dict(w), W)
+            # the augmented parser returns one augmentation value per fork visited, so its output (and honest size measure) is the unfolded tree;
+            # an over-long label must stop it at once
+            S.run(fam, 'parse_hashmap_aug', (n + e) if top_bits else 2 ** (min(d, 40) + 1), lambda: parse_hashmap_aug(cell.begin_parse(), w, lambda s: s, lambda s: 0), W) \
+                if (top_bits or d <= 12) else None
+            R.case(mon.fp('dictladder', fam, d))
     # fuzzed dictionary cells: random bits/refs fed to the parsers (must stop: raise or return)
     for i in range(100 if quick else 2000):
         root = gen.rand_dag(rng, rng.choice([1, 3, 10, 30]), max_bits=40)
